@@ -302,6 +302,22 @@ def run_input_accounting(rep, facts):
     rep.floor("R5.6", "R3.2 instances", n, 1)
 
 
+
+def run_skip_arith(rep, facts, rid, why):
+    """R5.7: records a finished request left unread are skipped by the next request parser; the skip arithmetic must be exact for any amount of buffered look-ahead (R3.11 re-evaluated)."""
+    import check as _check
+    from . import c03
+    rep.rule(rid, why)
+    sr = _check.Report("tmp", "quick")
+    c03.run_arith(sr, facts)
+    n = 0
+    for i in sr.instances:
+        inst = i["instance"]
+        if i["rule"] == "R3.11" and (inst.startswith("into_skip") or inst.startswith("SkipState::drive")):
+            n += 1
+            (rep.ok if i["status"] == "ok" else rep.violation)(rid, inst, i["detail"], i["loc"])
+    rep.floor(rid, "skip arithmetic instances", n, 2)
+
 def run_async_handoff(rep, facts):
     """R5.5: between two requests of a connection the stream parser is not driven while it already stands at a record
     boundary -- with no active stream it would skip (swallow) whatever part of the next request is already buffered."""
@@ -358,6 +374,7 @@ def main(rep, tier):
     check.guard(rep, "R5", run, f)
     check.guard(rep, "R5.5", run_async_handoff, f)
     check.guard(rep, "R5.6", run_input_accounting, f)
+    check.guard(rep, "R5.7", lambda r_, f_: run_skip_arith(r_, f_, "R5.7", "unread records are skipped exactly whatever amount of look-ahead is buffered: no truncating cast or overflow in into_skip / SkipState::drive (R3.11)"), f)
     rep.floor("R5", "rule instances", len([i for i in rep.instances if i["status"] == "ok"]), 7)
     import check as _c
     _c.witnesses(rep, "C05", f)
